@@ -98,3 +98,119 @@ func integralFloatLit(lit string) (string, bool) {
 	}
 	return strconv.FormatInt(int64(f), 10), true
 }
+
+// ---- constructors: a function that returns a struct literal ----
+//
+// A target with `Fields: []string{"f1", "f2"}` is a constructor: it returns `&T{...}` / `T{...}`
+// (T a struct of the package) directly or through a local variable defined by `v := &T{...}`.  Its
+// result is the tuple of the values given to the listed fields, in the listed order (a field the
+// literal does not mention has its zero value); the declared result type is ignored.  The field
+// values are evaluated where the literal stands.
+
+// fieldStruct: the struct type whose literal the constructor builds (first struct literal of the body)
+func (x *tr) fieldStruct(fd *ast.FuncDecl) string {
+	name := ""
+	ast.Inspect(fd.Body, func(n ast.Node) bool {
+		if cl, ok := n.(*ast.CompositeLit); ok && name == "" {
+			if id, ok := cl.Type.(*ast.Ident); ok {
+				if _, ok := x.p.structs[id.Name]; ok {
+					name = id.Name
+				}
+			}
+		}
+		return name == ""
+	})
+	if name == "" {
+		fail("Fields: the function builds no struct literal of its package")
+	}
+	return name
+}
+
+// fieldResTypes: result types of a constructor target
+func (x *tr) fieldResTypes(fd *ast.FuncDecl) []string {
+	sn := x.fieldStruct(fd)
+	var out []string
+	for _, f := range x.t.Fields {
+		ft, ok := x.lookupField(sn, f)
+		if !ok {
+			fail("Fields: struct %s has no field %s", sn, f)
+		}
+		ty := x.typeOfExpr(ft)
+		if !isBasic(ty) {
+			fail("Fields: field %s.%s has non-scalar type %s", sn, f, ty)
+		}
+		out = append(out, ty)
+	}
+	return out
+}
+
+func compositeOf(e ast.Expr) *ast.CompositeLit {
+	e = unparen(e)
+	if u, ok := e.(*ast.UnaryExpr); ok && u.Op == token.AND {
+		e = unparen(u.X)
+	}
+	cl, _ := e.(*ast.CompositeLit)
+	return cl
+}
+
+// fieldVals: the listed fields' values in a struct literal
+func (x *tr) fieldVals(cl *ast.CompositeLit) []string {
+	given := map[string]ast.Expr{}
+	for _, el := range cl.Elts {
+		kv, ok := el.(*ast.KeyValueExpr)
+		if !ok {
+			fail("struct literal without field names")
+		}
+		given[src(x.p.fset, kv.Key)] = kv.Value
+	}
+	var vs []string
+	for i, f := range x.t.Fields {
+		if e, ok := given[f]; ok {
+			vs = append(vs, x.coerce(x.expr(e), x.resTypes[i]).coq)
+		} else {
+			vs = append(vs, x.zero(x.resTypes[i]))
+		}
+	}
+	return vs
+}
+
+// defineComposite: `v := &T{...}` in a constructor target: the listed fields are let-bound
+func (x *tr) defineComposite(s *ast.AssignStmt, tail []ast.Stmt, rest [][]ast.Stmt) (string, bool) {
+	if len(x.t.Fields) == 0 || s.Tok != token.DEFINE || len(s.Lhs) != 1 || len(s.Rhs) != 1 {
+		return "", false
+	}
+	cl := compositeOf(s.Rhs[0])
+	id, ok := s.Lhs[0].(*ast.Ident)
+	if cl == nil || !ok {
+		return "", false
+	}
+	vs := x.fieldVals(cl)
+	pre := ""
+	for i, f := range x.t.Fields {
+		pre += "let " + cname(id.Name+"__"+f) + " := " + vs[i] + " in\n  "
+	}
+	x.vars[id.Name] = "comp"
+	return pre + x.exec(tail, rest), true
+}
+
+// returnFields: `return &T{...}` / `return v` in a constructor target
+func (x *tr) returnFields(s *ast.ReturnStmt) ([]string, bool) {
+	if len(x.t.Fields) == 0 {
+		return nil, false
+	}
+	if len(s.Results) != 1 {
+		fail("constructor returns %d values", len(s.Results))
+	}
+	if cl := compositeOf(s.Results[0]); cl != nil {
+		return x.fieldVals(cl), true
+	}
+	if id, ok := unparen(s.Results[0]).(*ast.Ident); ok && x.vars[id.Name] == "comp" {
+		var vs []string
+		for _, f := range x.t.Fields {
+			vs = append(vs, cname(id.Name+"__"+f))
+		}
+		return vs, true
+	}
+	fail("constructor returns %s: neither a struct literal nor a variable bound to one", src(x.p.fset, s.Results[0]))
+	return nil, false
+}
